@@ -352,6 +352,20 @@ func (r *Run) exec(op wx.Op, o *obs) (pv interface{}) {
 				}
 			}
 		}
+	case OpNewBatchRel:
+		ecs.NewBuilder(w, r.idList(c.Sets[op.A])...).WithRelation(r.ids[op.B]).NewBatch(1, m.handle(op.C))
+		known := map[ecs.Entity]bool{}
+		for i := range m.Slots {
+			if m.Slots[i].Alive {
+				known[m.Slots[i].H] = true
+			}
+		}
+		q := w.Query(ecs.All())
+		for q.Next() {
+			if e := q.Entity(); !known[e] {
+				o.created = append(o.created, e)
+			}
+		}
 	case OpRemoveEntity:
 		w.RemoveEntity(m.Slots[op.A].H)
 	case OpAdd:
@@ -914,6 +928,14 @@ func (r *Run) checkFilters(deep bool) *wx.Failure {
 			f := r.build(spec, t)
 			want := r.expectSet(spec, t)
 			got := r.collect(f)
+			if fs.SelfOnly {
+				if deep {
+					if f := r.deepIter(fs.Name, func() ecs.Query { return r.w.Query(r.build(spec, t)) }, got); f != nil {
+						return f
+					}
+				}
+				continue
+			}
 			if s := sameSet(got, want); s != "" {
 				prop := "C03"
 				if fs.Rel {
